@@ -15,20 +15,22 @@ import (
 
 // script: one scripted response.  Everything the oracle needs to know about what was put on the wire.
 type script struct {
-	ID       int      `json:"id"`
-	Payload  []byte   `json:"-"` // the original, uncompressed bytes
-	PayName  string   `json:"payload"`
-	CE       []string `json:"content_encoding"` // Content-Encoding header lines (nil = none)
-	CEClass  string   `json:"ce_class"`
-	Served   []byte   `json:"-"`       // body bytes put on the wire (framing-level body)
-	Corrupt  string   `json:"corrupt"` // "" = Served is the valid encoding chain of Payload
-	SetCL    bool     `json:"set_cl"`  // declare Content-Length; otherwise flush first (chunked / no length)
-	CT       string   `json:"content_type"`
-	GenSeed  uint64   `json:"gen_seed,omitempty"`      // sequences: Payload = genPayload(GenSeed, len)
-	Status   int      `json:"status,omitempty"`        // 0 = 200
-	CRange   string   `json:"content_range,omitempty"` // Content-Range header (206)
-	refTable map[string]refOut
-	once     sync.Once
+	ID        int      `json:"id"`
+	Payload   []byte   `json:"-"` // the original, uncompressed bytes
+	PayName   string   `json:"payload"`
+	CE        []string `json:"content_encoding"` // Content-Encoding header lines (nil = none)
+	CEClass   string   `json:"ce_class"`
+	Served    []byte   `json:"-"`       // body bytes put on the wire (framing-level body)
+	Corrupt   string   `json:"corrupt"` // "" = Served is the valid encoding chain of Payload
+	SetCL     bool     `json:"set_cl"`  // declare Content-Length; otherwise flush first (chunked / no length)
+	CT        string   `json:"content_type"`
+	GenSeed   uint64   `json:"gen_seed,omitempty"`        // sequences: Payload = genPayload(GenSeed, len)
+	Status    int      `json:"status,omitempty"`          // 0 = 200
+	DeclCL    int      `json:"declared_length,omitempty"` // > len(Served): Content-Length declared, Served written, stream ended cleanly short of it
+	DropFirst bool     `json:"drop_first,omitempty"`      // h1: the first attempt of an exchange is read and the connection closed unanswered
+	CRange    string   `json:"content_range,omitempty"`   // Content-Range header (206)
+	refTable  map[string]refOut
+	once      sync.Once
 }
 
 type refOut struct {
@@ -41,6 +43,9 @@ func (s *script) table() map[string]refOut {
 		s.refTable = map[string]refOut{}
 		for _, e := range encNames {
 			o, f := refDecode(e, s.Served)
+			if s.DeclCL > len(s.Served) {
+				o, f = refDecodeCut(e, s.Served)
+			}
 			s.refTable[e] = refOut{o, f}
 		}
 	})
@@ -50,6 +55,8 @@ func (s *script) table() map[string]refOut {
 type seen struct {
 	AE, Range, Method string
 	AEPresent         bool
+	Attempts          int      // how many requests carried this exchange id
+	AEs               []string // Accept-Encoding of every attempt
 }
 
 type origins struct {
@@ -68,18 +75,32 @@ func (o *origins) handler(w http.ResponseWriter, r *http.Request) {
 	o.mu.Lock()
 	s := o.scripts[id]
 	_, aeP := r.Header["Accept-Encoding"]
-	o.seen[x] = seen{AE: r.Header.Get("Accept-Encoding"), Range: r.Header.Get("Range"), Method: r.Method, AEPresent: aeP}
+	prev := o.seen[x]
+	cur := seen{AE: r.Header.Get("Accept-Encoding"), Range: r.Header.Get("Range"), Method: r.Method, AEPresent: aeP,
+		Attempts: prev.Attempts + 1, AEs: append(prev.AEs, r.Header.Get("Accept-Encoding"))}
+	o.seen[x] = cur
 	o.mu.Unlock()
 	if s == nil {
 		w.WriteHeader(404)
 		return
+	}
+	if s.DropFirst && cur.Attempts == 1 {
+		// read the request, close the connection without a byte of answer
+		if hj, ok := w.(http.Hijacker); ok {
+			if c, _, err := hj.Hijack(); err == nil {
+				c.Close()
+				return
+			}
+		}
 	}
 	h := w.Header()
 	h.Set("Content-Type", s.CT)
 	for _, v := range s.CE {
 		h.Add("Content-Encoding", v)
 	}
-	if s.SetCL || r.Method == "HEAD" {
+	if s.DeclCL > 0 {
+		h.Set("Content-Length", strconv.Itoa(s.DeclCL))
+	} else if s.SetCL || r.Method == "HEAD" {
 		h.Set("Content-Length", strconv.Itoa(len(s.Served)))
 	}
 	if s.CRange != "" {
@@ -93,12 +114,19 @@ func (o *origins) handler(w http.ResponseWriter, r *http.Request) {
 	if r.Method == "HEAD" {
 		return
 	}
-	if !s.SetCL {
+	if !s.SetCL || s.DeclCL > 0 {
 		if f, ok := w.(http.Flusher); ok {
 			f.Flush()
 		}
 	}
 	w.Write(s.Served)
+	if s.DeclCL > 0 {
+		// the handler returns short of the declared length: HTTP/1 closes the connection, HTTP/2 sends
+		// END_STREAM, HTTP/3 FIN - a clean end of the stream, no reset
+		if f, ok := w.(http.Flusher); ok {
+			f.Flush()
+		}
+	}
 }
 
 func startOrigins() (*origins, error) {
